@@ -104,14 +104,89 @@ func runC01(t *testing.T, c KVCase) *kit.Result {
 		fail := func(v *kit.Violation) { res.V = v }
 		sstReads := false
 		okWrites := 0
+		special := 0
+		aborted := false
 		for i, op := range c.Ops {
-			if res.V != nil {
+			if res.V != nil || aborted {
 				break
 			}
 			simrt.Note("op %d %s", i, op.String())
 			switch op.K {
 			case "put", "del", "batch", "txn":
+				node := fs.Node("n1")
+				if op.K == "txn" && op.FailIO > 0 {
+					kind := simos.OpWrite
+					if op.FailIO == 2 {
+						kind = simos.OpSync
+					}
+					op.PreCommit = func() { node.FailNext[kind] = 1 }
+				}
+				if op.K == "txn" && (op.Scribble || op.Abandon || op.FailIO > 0) {
+					special++
+				}
+				fired0 := node.Stats.ErrFired
 				r := kit.ExecWrite(e, op)
+				node.FailNext = [simos.NOp]int{}
+				if op.K == "txn" && op.Abandon {
+					// never finished: no trace now, none after the reopen that must follow
+					res.Probe("abandoned_txn")
+					break
+				}
+				if op.K == "txn" && op.FailIO > 0 && node.Stats.ErrFired != fired0 {
+					res.Fault("io_error_in_commit", 1)
+					if r.Err == nil {
+						// The armed error was consumed by background maintenance (or
+						// swallowed): what an I/O error inside a flush or rotation may
+						// cost is outside the listed properties, so the run ends here.
+						res.Probe("io_error_hit_background_run_abandoned")
+						aborted = true
+					} else {
+						// in this session: no trace. After a restart: all or nothing.
+						if v := verifyFull(e, m, "after-failed-commit"); v != nil {
+							v.Detail = fmt.Sprintf("op %d %s: %s", i, op, v.Detail)
+							fail(v)
+							break
+						}
+						e.Close()
+						e2, err := kit.OpenEngine("n1", c.Knobs)
+						if err != nil {
+							fail(&kit.Violation{Kind: "open-error", Signature: "open-error:after-failed-commit", Detail: fmt.Sprintf("op %d: %v", i, err)})
+							break
+						}
+						e = e2
+						for _, w := range op.Writes() {
+							m.Touch(w.Key)
+						}
+						obs, _, oerr := kit.Observe(e, m.Keys())
+						if oerr != nil {
+							fail(&kit.Violation{Kind: "read-error", Signature: "read-error:after-failed-commit", Detail: oerr.Error()})
+							break
+						}
+						// The I/O error broke the log writer: what was acknowledged but still
+						// buffered (batch/no sync) may be gone with it, as after a crash. The
+						// restarted state must be a prefix of history, the failed transaction
+						// being its last, optional step - never a part of it.
+						lo := 0
+						if c.Knobs.SyncMode == 2 {
+							lo = m.Len()
+						}
+						idx := m.Apply(op.Writes())
+						k, ok, why := m.MatchPrefix(obs.Gets, lo, idx)
+						if !ok {
+							sig := "failed-commit-not-a-prefix"
+							if _, _, part := m.MatchPartialStep(obs.Gets, 1, idx); part {
+								sig = "failed-commit-partial"
+							}
+							fail(&kit.Violation{Kind: sig, Signature: sig, Detail: fmt.Sprintf("op %d %s failed with %v; after restart the state is no prefix of history in [%d,%d]: %s", i, op, r.Err, lo, idx, why)})
+							break
+						}
+						if k == idx {
+							res.Probe("failed_commit_applied_after_restart")
+						}
+						m.Truncate(k)
+						break
+					}
+				}
 				if r.Err != nil {
 					// No property promises that a write succeeds; one that reports an
 					// error must have had no effect, so the model stays as it is and
@@ -196,16 +271,17 @@ func runC01(t *testing.T, c KVCase) *kit.Result {
 				}
 			}
 		}
-		if res.V == nil {
+		if res.V == nil && !aborted {
 			res.V = verifyFull(e, m, "final")
 		}
+
 		l0, dp := sstCount(fs, "n1")
 		res.Probes["sst_l0_files"] += int64(l0)
 		res.Probes["sst_deeper_files"] += int64(dp)
 		if sstReads {
 			res.Probe("reads_with_sstables_after_reopen")
 		}
-		res.Nontrivial = l0+dp > 0 && okWrites >= 3
+		res.Nontrivial = (l0+dp > 0 && okWrites >= 3) || (special > 0 && okWrites >= 1)
 		res.Note = fmt.Sprintf("%d ops, %d write steps, %d L0 + %d deeper SSTables", len(c.Ops), m.Len(), l0, dp)
 		if res.V == nil {
 			e.Close()
